@@ -284,8 +284,19 @@ def rule_rel(R):
                 if none_t is not None and bb2 in hb.reach([none_t]) and bb2 not in hb.reach([some_t]):
                     side.append("not-found")
                 table[rv["agg"]["variant"]] = side
-        alts = [a[3] for a in phi_alts(fields["reason"]) if a[0] == "agg"]
-        ok = sorted(alts) == ["PacketIdNotFound", "Success"] and table.get("Success") == ["found"] and table.get("PacketIdNotFound") == ["not-found"]
+        # over all PUBCOMPs of the arm (one with a computed reason, or one per outcome): exactly the two reasons
+        alts = []
+        for bb_, (c_, alt_) in marks.items():
+            alts += [a[3] for a in phi_alts(dict(zip(alt_[4], alt_[5]))["reason"]) if a[0] == "agg"]
+        mine = [a[3] for a in phi_alts(fields["reason"]) if a[0] == "agg"]
+        ok = sorted(set(alts)) == ["PacketIdNotFound", "Success"] and bool(mine) and \
+            table.get("Success") == ["found"] and table.get("PacketIdNotFound") == ["not-found"]
+        # a PUBCOMP whose reason is fixed sits on the side of the lookup that its reason belongs to
+        if ok and len(mine) == 1 and len(marks) > 1:
+            side_ = "found" if mine[0] == "Success" else "not-found"
+            on_found = some_t is not None and bb in hb.reach([some_t], avoid=[none_t] if none_t is not None else []) and bb not in hb.reach([none_t] if none_t is not None else [])
+            on_missing = none_t is not None and bb in hb.reach([none_t]) and bb not in hb.reach([some_t])
+            ok = on_found if side_ == "found" else on_missing
         R.ob("rel/reason-table", ok,
              "PUBCOMP reason: Success exactly when the identifier was pending, PacketIdNotFound otherwise (extracted: %s)"
              % table, where=c.span)
